@@ -6,6 +6,7 @@
 #![allow(non_snake_case, unused)]
 use vstd::prelude::*;
 use vstd::set_lib::set_int_range;
+use std::cmp::Ordering;
 verus! {
 global size_of usize == 8;
 
@@ -18,6 +19,12 @@ pub struct MerkleHash(pub [u64; 4]);
 impl vstd::std_specs::cmp::PartialEqSpecImpl for MerkleHash {
     open spec fn obeys_eq_spec() -> bool { true }
     open spec fn eq_spec(&self, other: &Self) -> bool { *self == *other }
+}
+impl MerkleHash {
+    // R11 stub of the derived Ord::cmp of the [u64;4] newtype (only so that code comparing hashes by order still type-checks here):
+    // Equal exactly for equal hashes, otherwise an arbitrary strict order
+    #[verifier::external_body]
+    fn cmp(&self, other: &MerkleHash) -> (r: Ordering) ensures (r == Ordering::Equal) == (*self == *other) { unimplemented!() }
 }
 impl PartialEq for MerkleHash {
     #[verifier::external_body]
@@ -202,7 +209,7 @@ impl MDBShardInfo {
 
 //@ extract mdb_shard/src/shard_format.rs in `impl MDBShardInfo` fn get_file_reconstruction_info
 //@ ret ret
-//@ rules R4t
+//@ rules R4w
 //@ contract
         requires
             search_pre::<u32>(old(reader).data(), self.metadata.file_lookup_offset, self.metadata.file_lookup_num_entry),
@@ -227,11 +234,13 @@ impl MDBShardInfo {
         proof { lemma_candidates::<R>(*self, d0, *file_hash, num_indices as int, dest_indices@); }
 //@ loop 1
             invariant
+                vx_tk1 <= vx_lim1, vx_lim1 == num_indices,
                 reader.data() == d0, d0 == old(reader).data(),
                 num_indices < 8, num_indices == fl_count(*self, d0, *file_hash), dest_indices@.len() == 8,
                 /*@C09*/ all_listed::<R>(*self, d0, *file_hash, num_indices as int, dest_indices@),
                 /*@C09*/ all_from_table::<R>(*self, d0, *file_hash, num_indices as int, dest_indices@),
                 /*@C09*/ forall|k: int| 0 <= k < vx_tk1 ==> spec_file_info(*self, d0, #[trigger] dest_indices@[k]).metadata.file_hash != *file_hash,
+            decreases vx_lim1 - vx_tk1,
 //@ end
 }
 
